@@ -69,6 +69,9 @@ func forEachEngineProgram(r *harness.Run, plans []famPlan, c03MaxN int, f func(w
 	if !r.Expired() {
 		forEachSequenceProgram(r, seqLen, f)
 	}
+	if !r.Expired() {
+		forEachScaledProgram(r, f)
+	}
 	r.Set("switch_entries_completed", completed)
 	if completed < c03MaxN {
 		r.NotExhaustive(fmt.Sprintf("switch programs completed entries<=%d of planned <=%d", completed, c03MaxN))
@@ -105,6 +108,9 @@ func seqTemplates() []func(k int) model.Stmt {
 		},
 		func(k int) model.Stmt {
 			return model.Stmt{Kind: model.SIf, Arms: []model.Arm{{Cond: fl("F", k), Body: []model.Stmt{cmd("c", k)}}, {Cond: fl("G", k), Body: nil}}, HasElse: true, Else: []model.Stmt{cmd("d", k)}}
+		},
+		func(k int) model.Stmt {
+			return model.Stmt{Kind: model.SIf, Arms: []model.Arm{{Cond: fl("F", k), Body: []model.Stmt{cmd("c", k)}}, {Cond: fl("G", k), Body: nil}, {Cond: fl("H", k), Body: []model.Stmt{cmd("e", k)}}}}
 		},
 		func(k int) model.Stmt {
 			return model.Stmt{Kind: model.SWhile, Cond: fl("W", k), Body: []model.Stmt{cmd("c", k)}}
@@ -206,5 +212,74 @@ func forEachSequenceProgram(r *harness.Run, maxLen int, f func(w int, p enginePr
 	r.Set("sequence_max_length", maxLen)
 	if !done {
 		r.NotExhaustive("statement sequences not completed")
+	}
+}
+
+// ---------------------------------------------------------------------------
+// Scaled programs: the size dimension. Every statement template repeated K
+// times in sequence, K nested levels of each block statement, and a switch with
+// K cases, for every K up to a bound well above any small fixed capacity
+// (64-entry tables, bit masks) an implementation might use.
+
+func scaleBounds(tier string) (seqK, nestK, caseK int) {
+	if tier == "thorough" {
+		return 96, 96, 300
+	}
+	return 40, 40, 100
+}
+
+func scaledPrograms(tier string) []engineProgram {
+	seqK, nestK, caseK := scaleBounds(tier)
+	var out []engineProgram
+	ts := seqTemplates()
+	for ti, t := range ts {
+		for k := 4; k <= seqK; k++ {
+			// a separator command after each copy keeps the explored environment small: the lazy
+			// environment is forgotten at every command, so operand reads never pile up across copies
+			body := make([]model.Stmt, 0, 2*k)
+			for i := 0; i < k; i++ {
+				body = append(body, t(i), mcmd(fmt.Sprintf("s%d", i)))
+			}
+			out = append(out, engineProgram{Desc: fmt.Sprintf("scaled: template %d x %d in sequence", ti, k), Script: &model.Script{Name: "S", Body: body}})
+		}
+	}
+	for wi, w := range labelWrappers() {
+		for k := 3; k <= nestK; k++ {
+			in := []model.Stmt{mcmd("core")}
+			for d := k; d >= 1; d-- {
+				in = []model.Stmt{mcmd(fmt.Sprintf("a%d", d)), w(in, d), mcmd(fmt.Sprintf("z%d", d))}
+			}
+			out = append(out, engineProgram{Desc: fmt.Sprintf("scaled: block kind %d nested %d deep", wi, k), Script: &model.Script{Name: "S", Body: in}})
+		}
+	}
+	for k := 5; k <= caseK; k++ {
+		for variant := 0; variant < 3; variant++ {
+			sw := model.Stmt{Kind: model.SSwitch, Operand: mvar("X")}
+			for i := 1; i <= k; i++ {
+				var body []model.Stmt
+				if variant != 1 || i%3 != 0 {
+					body = []model.Stmt{mcmd(fmt.Sprintf("c%d", i))}
+				}
+				sw.Cases = append(sw.Cases, model.Case{Val: i, Body: body})
+			}
+			if variant == 2 {
+				sw.Cases = append(sw.Cases, model.Case{Default: true, Body: []model.Stmt{mcmd("d")}})
+			}
+			out = append(out, engineProgram{Desc: fmt.Sprintf("scaled: switch with %d cases, variant %d", k, variant), Script: &model.Script{Name: "S", Body: []model.Stmt{mcmd("a"), sw, mcmd("z")}}})
+		}
+	}
+	return out
+}
+
+func forEachScaledProgram(r *harness.Run, f func(w int, p engineProgram)) {
+	ps := scaledPrograms(r.Tier)
+	done := r.Parallel(uint64(len(ps)), func(w int, i uint64) { f(w, ps[i]) })
+	seqK, nestK, caseK := scaleBounds(r.Tier)
+	r.Set("scaled_programs", len(ps))
+	r.Set("scaled_max_sequence", seqK)
+	r.Set("scaled_max_nesting", nestK)
+	r.Set("scaled_max_cases", caseK)
+	if !done {
+		r.NotExhaustive("scaled programs not completed")
 	}
 }
